@@ -31,6 +31,8 @@ type Obj struct {
 	id      int
 	elemT   types.Type
 	lenOnly bool   // no contents: reads give fresh unconstrained values, writes are dropped
+	loCells map[uint64]*Term // length-only INPUT buffers: reads at constant offsets are memoised (and replayable)
+	loName  string
 	phys    int    // physical length (== len(E) unless lenOnly)
 	owned   string // tag: handed to caller (write monitor)
 	input   bool   // harness input buffer (write monitor)
@@ -86,7 +88,10 @@ type Closure struct {
 
 type TupleV []Value
 
-type ChanV struct{ id int }
+type ChanV struct {
+	id     int
+	closed bool
+}
 
 // iterator for Range/Next
 type MapIter struct {
